@@ -64,6 +64,8 @@ def random_program(rng, *, max_cleanups=4, kinds=RAISE_KINDS, p_raise=0.35, feat
     custom = []
     if "handlers" in feats and rng.random() < 0.5:
         hs = []
+        if rng.random() < 0.3:
+            custom.append("custom:CustomFalsy")   # no handler of its own: the Exception catch-all
         for name in rng.sample(["CustomA", "CustomB", "CustomC"], rng.randint(1, 3)):
             report = rng.choice(["skip", "failure", "error", "xfail", "uxs"])
             hs.append([name, report, rng.choice([0, 0, 0, 1, 2])])
@@ -132,6 +134,18 @@ def random_program(rng, *, max_cleanups=4, kinds=RAISE_KINDS, p_raise=0.35, feat
             p["upcall_su"] = False
         elif r < 0.16:
             p["upcall_td"] = False
+    if "setup_returns" in feats and rng.random() < 0.15:
+        p["setup_returns"] = rng.choice([1, "value", [0]])
+    if "xfail_decor" in feats and rng.random() < 0.08:
+        p["decor"] = "stdlib_expectedFailure"
+    if "clone" in feats and rng.random() < 0.1:
+        p["clone_id"] = "prog.clone"
+    if "eq_exc" in feats and rng.random() < 0.12:
+        # two stages raise exceptions that compare equal / the very same object
+        kind = rng.choice(["eqexc", "sameobj"])
+        t = tok("EQ")
+        p["test"].append(["raise", kind, t])
+        p["su_pre"].insert(0, ["cleanup", "ceq", [["raise", kind, t]]])
     if "own_exc" in feats:
         r = rng.random()
         if r < 0.12:
@@ -147,11 +161,15 @@ def random_program(rng, *, max_cleanups=4, kinds=RAISE_KINDS, p_raise=0.35, feat
                                  "skipUnless_false", "stdlib_skip_method"])
         if rng.random() < 0.3:
             p["decor_reason"] = ""
+    if p.get("decor") == "stdlib_expectedFailure":
+        # TestCase.__init__ stores the @expectedFailure wrapper, bound to THAT instance, as an instance
+        # attribute; a shallow clone would run the original's method.  Not combined (see DESIGN §6).
+        p.pop("clone_id", None)
     return p
 
 
 def patch_action(rng, p):
-    attr = rng.choice(["a", "b", "c", "missing1", "missing2"])
+    attr = rng.choice(["a", "b", "c", "missing1", "missing2", "prop"])
     if attr in ("a", "b", "c") and attr not in p["scratch"]:
         p["scratch"][attr] = rng.choice([None, 0, "orig-" + attr, False])
     return ["patch", attr, rng.choice([None, 1, "patched", 0])]
@@ -177,6 +195,10 @@ def detail_action(rng, tok, feats):
     r = rng.random()
     if r < 0.2:
         return ["lazy", name, pid, "cell" + pid]
+    if r < 0.24 and "peek" in feats:
+        return ["peek"]
+    if r < 0.28 and "peek" in feats:
+        return ["setcell", "cell<<P1>>", pid.encode().hex()]
     if r < 0.3:
         return ["detail", name, pid, [], "bin"]  # empty payload
     chunks = []
